@@ -64,7 +64,7 @@ class C09(CheckBase):
     quick_runs = 1000
     thorough_runs = 30000
     quick_budget_s = 75
-    thorough_budget_s = 1500
+    thorough_budget_s = 3000
     run_timeout = 90
     det_sample_quick = 16
     det_sample_thorough = 96
@@ -140,8 +140,9 @@ class C09(CheckBase):
         for cls in classes:
             self._install_barrier(cls)
         self.weights = ops_mod.kind_weights()
-        self.kinds = sorted(ops_mod.OPS)
+        self.kinds = sorted(k for k in ops_mod.OPS if not k.startswith('canary.'))
         self.kind_w = [self.weights[k] for k in self.kinds]
+        self.thorough_runs = self.N_RANDOM_THOROUGH + 2 * self.n_pairs()
         self.wrapped_locks = wrap_module_locks([m for n, m in sorted(sys.modules.items())
                                                 if m is not None and (n == 'geodepy' or n.startswith('geodepy.'))])
         self.base_fast = self.fast_snapshot()
@@ -253,7 +254,45 @@ class C09(CheckBase):
         return True
 
     # --------------------------------------------------------------- generate
+    N_RANDOM_THOROUGH = 30000
+
+    def _pair_of(self, p):
+        """p-th unordered pair (a <= b) of op kinds, row-major"""
+        n = len(self.kinds)
+        a = 0
+        while p >= n - a:
+            p -= n - a
+            a += 1
+        return self.kinds[a], self.kinds[a + p]
+
+    def n_pairs(self):
+        n = len(self.kinds)
+        return n * (n + 1) // 2
+
+    def _pair_trace(self, rng, j):
+        """Systematic part of the thorough tier: every unordered pair of op kinds once as a sequential
+        history A, B, A', B' (A' / B' repeat the first calls: does B disturb A, does A disturb B) and
+        once on two threads under a seeded schedule."""
+        ka, kb = self._pair_of(j // 2)
+        T = 1 + j % 2
+        ops = []
+        a_args = ops_mod.OPS[ka][1](rng, self.ctx)
+        b_args = ops_mod.OPS[kb][1](rng, self.ctx)
+        seq = [(ka, a_args, 0), (kb, b_args, 1), (ka, a_args, 0), (kb, b_args, 1)]
+        if T == 2:
+            seq += [(ka, ops_mod.OPS[ka][1](rng, self.ctx), 1), (kb, ops_mod.OPS[kb][1](rng, self.ctx), 0)]
+        for n, (k, args, th) in enumerate(seq):
+            o = {'id': n, 'kind': k, 'args': args, 'thread': th % T}
+            if n in (2, 3):
+                o['repeat_of'] = n - 2
+            ops.append(o)
+        return {'property': 'C09', 'threads': T, 'ops': ops, 'shared': [], 'faults': [],
+                'sched': {'mode': 'rng', 'seed': rng.getrandbits(64)}, 'switches': [], 'opcode_salt': None,
+                'scribble': rng.random() < 0.35, 'focus': [ka, kb], 'pair_sweep': True}
+
     def generate(self, rng, i, tier):
+        if tier == 'thorough' and i >= self.N_RANDOM_THOROUGH:
+            return self._pair_trace(rng, i - self.N_RANDOM_THOROUGH)
         cls = rng.randrange(10)
         if cls < 2:
             T = 1
@@ -615,7 +654,9 @@ class C09(CheckBase):
             bump('probe:same_kind_in_flight_on_two_threads')
         if any('near_repeat_of' in o for o in ops):
             bump('probe:near_repeat_op')
-        if trace.get('focus'):
+        if trace.get('pair_sweep'):
+            bump('pair_sweep_runs')
+        elif trace.get('focus'):
             bump('focused_runs')
         if any('repeat_of' in o and op_by_id.get(o['repeat_of'], o)['thread'] % T != o['thread'] % T for o in ops):
             bump('probe:repeat_on_other_thread')
